@@ -7,8 +7,10 @@ import (
 	"fmt"
 	"os"
 	"path/filepath"
-	"runtime"
+	"bytes"
+	"runtime/pprof"
 	"strings"
+	"sync/atomic"
 	"sync"
 	"time"
 
@@ -86,6 +88,15 @@ func (x *Xfer) AbortSender() {
 	}
 }
 
+// AbortReceiver closes the receiver's raw QUIC connections with error code 1.
+func (x *Xfer) AbortReceiver() {
+	for _, p := range x.Pairs {
+		if p.RawAccept != nil {
+			_ = p.RawAccept.CloseWithError(1, "abort")
+		}
+	}
+}
+
 // SilenceSender kills the sender's sockets (peer learns via idle timeout).
 func (x *Xfer) SilenceSender() {
 	for _, p := range x.Pairs {
@@ -100,6 +111,8 @@ type XferResult struct {
 	SendReturned bool
 	RecvReturned bool
 	Hung         bool   // watchdog fired and no I/O moved during the idle window
+	SendStuck    bool   // sender had not returned when the watchdog fired
+	RecvStuck    bool   // receiver had not returned when the watchdog fired
 	HangDump     string // goroutine dump when Hung
 	Inconclusive string
 	DurMs        int64
@@ -122,6 +135,7 @@ func errStr(e error) string {
 func (r XferResult) Summary() map[string]any {
 	return map[string]any{"send_err": errStr(r.SendErr), "recv_err": errStr(r.RecvErr),
 		"send_returned": r.SendReturned, "recv_returned": r.RecvReturned, "hung": r.Hung, "dur_ms": r.DurMs,
+		"send_stuck_at_watchdog": r.SendStuck, "recv_stuck_at_watchdog": r.RecvStuck,
 		"setup_err": errStr(r.SetupErr), "inconclusive": r.Inconclusive}
 }
 
@@ -281,7 +295,8 @@ func RunTransfer(ctx context.Context, cfg XferCfg, lp *ListenerPool, srcRoot, ou
 	var mu sync.Mutex
 	sdone := make(chan struct{})
 	rdone := make(chan struct{})
-	go func() {
+	label := fmt.Sprintf("x%d", xferSeq.Add(1))
+	go pprof.Do(context.Background(), pprof.Labels("xfer", label, "side", "send"), func(context.Context) {
 		err := transfer.SendManifestMultiStream(sctx, sendConn, rootPath, m, sopts)
 		mu.Lock()
 		res.SendErr, res.SendReturned = err, true
@@ -289,15 +304,15 @@ func RunTransfer(ctx context.Context, cfg XferCfg, lp *ListenerPool, srcRoot, ou
 		// the application closes the connection when its transfer function returns
 		x.CloseSender()
 		close(sdone)
-	}()
-	go func() {
+	})
+	go pprof.Do(context.Background(), pprof.Labels("xfer", label, "side", "recv"), func(context.Context) {
 		_, err := transfer.RecvManifestMultiStream(rctx, recvConn, outDir, ropts)
 		mu.Lock()
 		res.RecvErr, res.RecvReturned = err, true
 		mu.Unlock()
 		x.CloseReceiver()
 		close(rdone)
-	}()
+	})
 
 	wd := time.Duration(cfg.WatchdogMs) * time.Millisecond
 	if wd <= 0 {
@@ -323,7 +338,9 @@ func RunTransfer(ctx context.Context, cfg XferCfg, lp *ListenerPool, srcRoot, ou
 			mu.Lock()
 			if idle >= wd/2 {
 				res.Hung = true
-				res.HangDump = GoroutineDump()
+				res.SendStuck = !res.SendReturned
+				res.RecvStuck = !res.RecvReturned
+				res.HangDump = GoroutineDump(label)
 			} else {
 				res.Inconclusive = "watchdog fired while bytes were still moving"
 			}
@@ -343,8 +360,7 @@ func RunTransfer(ctx context.Context, cfg XferCfg, lp *ListenerPool, srcRoot, ou
 			}
 			mu.Lock()
 			defer mu.Unlock()
-			out := res
-			return out
+			return res
 		}
 	}
 	mu.Lock()
@@ -352,29 +368,46 @@ func RunTransfer(ctx context.Context, cfg XferCfg, lp *ListenerPool, srcRoot, ou
 	return res
 }
 
-// GoroutineDump returns the stacks of all goroutines that have a repository
-// frame (trimmed).
-func GoroutineDump() string {
-	buf := make([]byte, 1<<20)
-	n := runtime.Stack(buf, true)
-	parts := strings.Split(string(buf[:n]), "\n\n")
+var xferSeq atomic.Int64
+
+// GoroutineDump returns the stacks (pprof debug=1 format, grouped) of the
+// goroutines that carry the pprof label xfer=<label>, i.e. the goroutines of
+// one transfer and everything they spawned.
+func GoroutineDump(label string) string {
+	var buf bytes.Buffer
+	_ = pprof.Lookup("goroutine").WriteTo(&buf, 1)
+	parts := strings.Split(buf.String(), "\n\n")
 	var keep []string
+	needle := fmt.Sprintf("\"xfer\":\"%s\"", label)
 	for _, p := range parts {
-		if strings.Contains(p, "sheerbytes/internal/transfer.") || strings.Contains(p, "sheerbytes/internal/app.") {
-			if strings.Contains(p, "verifkit.") && !strings.Contains(p, "transfer.SendManifest") && !strings.Contains(p, "transfer.RecvManifest") {
+		if !strings.Contains(p, needle) {
+			continue
+		}
+		var lines []string
+		for _, ln := range strings.Split(p, "\n") {
+			if strings.HasPrefix(ln, "#") && !strings.Contains(ln, "labels") {
+				// keep only the symbolised frames of the repository
+				if strings.Contains(ln, "sheerbytes/internal/") || strings.Contains(ln, "quic-go.(*") {
+					f := strings.Fields(ln)
+					if len(f) >= 3 {
+						lines = append(lines, "  "+strings.Join(f[2:], " "))
+					}
+				}
 				continue
 			}
-			lines := strings.Split(p, "\n")
-			if len(lines) > 14 {
-				lines = lines[:14]
+			if strings.Contains(ln, "labels") {
+				lines = append(lines, ln)
 			}
-			keep = append(keep, strings.Join(lines, "\n"))
 		}
-		if len(keep) >= 12 {
+		if len(lines) > 10 {
+			lines = lines[:10]
+		}
+		keep = append(keep, strings.Join(lines, "\n"))
+		if len(keep) >= 16 {
 			break
 		}
 	}
-	return strings.Join(keep, "\n\n")
+	return strings.Join(keep, "\n--\n")
 }
 
 // TempDir makes a scratch directory under base.
